@@ -243,6 +243,7 @@ type Engine struct {
 	strLitIDs map[string]uint64
 	unrolls map[string]*ssa.Function
 	topPkg string
+	unfoldCache map[string]*Term
 	loopEval *loopEvalCtx
 	reveal bool
 	usedLemmas map[string]bool
@@ -269,7 +270,7 @@ func NewEngine(prog *ssa.Program) *Engine {
 		contracts: map[*ssa.Function]*ssa.Function{}, invs: map[string]*ssa.Function{}, decs: map[string]*ssa.Function{},
 		assumedExterns: map[string]bool{}, inlined: map[string]bool{}, usedContracts: map[string]bool{}, fieldIDs: map[string]uint64{},
 		globalsRO: map[*ssa.Global][]*Term{}, unfoldFuel: 1, specUF: map[string]bool{}, axiomSeen: map[string]bool{},
-		strLitIDs: map[string]uint64{}, usedLemmas: map[string]bool{}, oblNames: map[string]bool{}, oblCounts: map[string]int{}, unfolding: map[*ssa.Function]int{}, unrolls: map[string]*ssa.Function{}, typeTags: map[string]uint64{}, ifaceVals: map[int]ifaceVal{}, maxDepth: 12, quantVars: map[string]*quantInfo{}}
+		strLitIDs: map[string]uint64{}, unfoldCache: map[string]*Term{}, usedLemmas: map[string]bool{}, oblNames: map[string]bool{}, oblCounts: map[string]int{}, unfolding: map[*ssa.Function]int{}, unrolls: map[string]*ssa.Function{}, typeTags: map[string]uint64{}, ifaceVals: map[int]ifaceVal{}, maxDepth: 12, quantVars: map[string]*quantInfo{}}
 }
 
 func (e *Engine) warn(format string, a ...interface{}) {
